@@ -30,7 +30,7 @@
 From H2V Require Import Base.Tac Base.Bytes Ref.Rfc7541Int Ref.Rfc7541Static.
 Local Open Scope N_scope.
 
-Definition field : Type := (list N * list N)%type.
+Notation field := (list N * list N)%type (only parsing).
 
 Definition lenN {A} (l : list A) : N := N.of_nat (length l).
 
